@@ -439,7 +439,8 @@ def run(ctx):
                     if c2 != n:
                         continue
                     a_ = expr_str(g.expr(t2["args"][val[1] - 1], 8), 200)
-                    raw = [b3 for b3, t3, c3 in g.calls() if c3 == T + "Terminal::read_line_raw" and g.dominates(b3, b2)]
+                    # ... the raw read, or - where it was written into its caller - the key loop itself (it is left only when the handler says complete)
+                    raw = [b3 for b3, t3, c3 in g.calls() if c3 in (T + "Terminal::read_line_raw", HK) and g.dominates(b3, b2)]
                     if not (any(bf in a_ for bf in bufs) and raw):
                         why = "`%s` pushes `%s` into the history without it being the buffer a finished raw read left behind" % (short(cn), a_[:60])
         else:
